@@ -435,7 +435,8 @@ def _process(cls: t.Type[PaneBase], opts: PaneOptions):
         cls_specs = getattr(base, PANE_INFO).specs
 
         # apply typevar replacements
-        bound_vars = t.cast(t.Mapping[t.Union[t.TypeVar, ParamSpec], type], getattr(base, PANE_BOUNDVARS, {}))
+        # only the variables bound by `base` itself (a subscripted class), not ones it inherits
+        bound_vars = t.cast(t.Mapping[t.Union[t.TypeVar, ParamSpec], type], base.__dict__.get(PANE_BOUNDVARS, {}))
         specs.update(cls_specs)
         specs = {k: spec.replace_typevars(bound_vars) for (k, spec) in specs.items()}
 
@@ -461,7 +462,7 @@ def _process(cls: t.Type[PaneBase], opts: PaneOptions):
         cls_specs[name] = spec
 
     # apply typevar replacements
-    bound_vars = getattr(cls, PANE_BOUNDVARS, {})
+    bound_vars = cls.__dict__.get(PANE_BOUNDVARS, {})
     specs.update(cls_specs)
     specs = {k: spec.replace_typevars(bound_vars) for (k, spec) in specs.items()}
 
